@@ -21,8 +21,12 @@ class C05(Check):
             "by a fresh accessor; distinct = distinct reach signature (max "
             "pending depth, flush cascade, gap fill, #shards, #minishards, "
             "preshift, unused slots, encodings, write path, subset kind, "
-            ">=64 total bits); non-trivial = at least one stored chunk "
-            "fetched back and compared")
+            ">=64 total bits); variants: a second scale with the same shard "
+            "numbers written interleaved, a second store/close session on "
+            "the same accessor into untouched shards, writers that rely on "
+            "the accessor's exit handler (simulated process), payloads above "
+            "64 KiB, minishards above 1 MiB (thorough); non-trivial = at "
+            "least one stored chunk fetched back and compared")
     assumptions = [
         "each chunk is stored once (sharded rewrites are undefined by the "
         "writer)", "reads happen after close() through a freshly opened "
